@@ -564,6 +564,33 @@ def comparable_sk(rng, n):
     return ('pair', first, comparable_sk(rng, n - 1))
 
 
+def annotate_named(sk, names):
+    """type JSON of the skeleton whose pair components get the field names of `names` in order (None = no annotation)"""
+    def go(t, name):
+        if t[0] == 'p':
+            out = {'prim': t[1]}
+        elif t[0] in ('option', 'list'):
+            out = {'prim': t[0], 'args': [go(t[1], None)]}
+        elif t[0] == 'pair':
+            out = {'prim': 'pair', 'args': [go(t[1], names.pop(0) if names else None), go(t[2], names.pop(0) if names else None)]}
+        else:
+            out = {'prim': t[0], 'args': [go(t[1], None), go(t[2], None)]}
+        if name:
+            out['annots'] = ['%' + name]
+        return out
+    return go(sk, None)
+
+
+def count_pair_slots(sk):
+    if sk[0] == 'pair':
+        return 2 + count_pair_slots(sk[1]) + count_pair_slots(sk[2])
+    if sk[0] in ('option', 'list'):
+        return count_pair_slots(sk[1])
+    if sk[0] == 'or':
+        return count_pair_slots(sk[1]) + count_pair_slots(sk[2])
+    return 0
+
+
 def wide_program(rng):
     """(template with {T}/{K}… placeholders filled per twin) -> list of (text pieces); returns a function style -> code"""
     T = gen_comb(rng, 1, rng.choice([2, 2, 3, 4]))
@@ -580,7 +607,12 @@ def wide_program(rng):
     P = ' ; '.join(proj) if proj else ''
     body = '{ ' + P + ' }' if P else '{}'
     cdr_body = '{ CDR' + (' ; ' + P if P else '') + ' }'
-    kind = rng.randrange(0, 20)
+    kind = rng.randrange(0, 23) if rng.random() < 0.8 else rng.randrange(20, 23)
+    if kind >= 20:
+        # CAST / RENAME: components of equal type so that a by-name re-typing would silently permute them
+        leaf = ('p', rng.choice(['int', 'nat', 'string']))
+        T = rng.choice([('pair', leaf, leaf), ('pair', leaf, ('pair', leaf, leaf)), ('pair', ('pair', leaf, leaf), leaf), gen_comb(rng, 1, 3)])
+        vals = [gen_value(rng, T) for _ in range(3)]
     TU = ('pair', T, U)
     KT = ('pair', K, T)
     uval = gen_value(rng, U)
@@ -625,6 +657,28 @@ def wide_program(rng):
         if kind == 14:   # APPLY captures the (possibly field-annotated) left component of the lambda parameter
             return (f'LAMBDA {ty(TU)} {ty(psk)} {{ CAR{" ; " + P if P else ""} }} ; PUSH {ty(T)} {v[0]} ; APPLY ; '
                     f'PUSH {ty(U)} {text(uval)} ; EXEC')
+        if kind >= 20:   # CAST to a type with the same field names in other positions / other names / no names; RENAME
+            if style == 'none':
+                src = tgt = text(annotate_named(T, []))
+            else:
+                k = count_pair_slots(T)
+                names = rng.sample(NAMES, min(k, len(NAMES)))
+                src = text(annotate_named(T, list(names)))
+                how = rng.random()
+                if how < 0.45:
+                    perm = names[:]
+                    rng.shuffle(perm)
+                    if perm == names and len(perm) > 1:
+                        perm = perm[1:] + perm[:1]
+                elif how < 0.65:
+                    perm = rng.sample(NAMES, min(k, len(NAMES)))
+                elif how < 0.8:
+                    perm = []
+                else:
+                    perm = [n if rng.random() < 0.5 else None for n in reversed(names)]
+                tgt = text(annotate_named(T, list(perm)))
+            tail = {20: ' ; DUP ; PACK', 21: ' ; RENAME ; UNPAIR', 22: ' ; RENAME @x ; DUP ; CAR ; SWAP ; PACK'}[kind]
+            return f'PUSH {src} {v[0]} ; CAST {tgt}{tail}'
         if kind == 19:   # the partially applied lambda itself is serialized
             return f'LAMBDA {ty(TU)} {ty(psk)} {{ CAR{" ; " + P if P else ""} }} ; PUSH {ty(T)} {v[0]} ; APPLY ; PACK'
         if kind == 15:   # CONS / SOME / LEFT of a projected (field-annotated) component
